@@ -4,6 +4,7 @@ package sched
 
 import (
 	"context"
+	"errors"
 	"fmt"
 	"math/rand/v2"
 	"runtime"
@@ -28,15 +29,16 @@ type perturbCfg struct {
 	hits     [scheduler.VerifNumPoints]atomic.Uint64
 
 	// observations (plain builds only)
-	maxOngoing   atomic.Int64
-	lateEnq      atomic.Int64 // enqueues that found at least one dependency already done
-	workersStart atomic.Int64
-	dispatches   atomic.Int64
-	sig          atomic.Uint64 // hash of the sequence of loop arms taken
-	stMu         sync.Mutex
-	states       map[uint64]struct{}             // abstract loop states seen
-	model        *shadow                         // online reference model of the loop (plain builds only)
-	hold         func(j *scheduler.ScheduledJob) // HoldAtGot scenarios: called at the worker's "got a job" point
+	maxOngoing atomic.Int64
+	lateEnq    atomic.Int64    // enqueues that found at least one dependency already done
+	wstarts    map[uintptr]int // worker goroutines started, per scheduler
+	dispatches atomic.Int64
+	sig        atomic.Uint64 // hash of the sequence of loop arms taken
+	stMu       sync.Mutex
+	states     map[uint64]struct{}             // abstract loop states seen
+	model      *shadow                         // online reference model of the loop (plain builds only)
+	hold       func(j *scheduler.ScheduledJob) // HoldAtGot scenarios: called at the worker's "got a job" point
+	key        atomic.Uintptr                  // the scenario's scheduler; other schedulers (nested ones, stragglers) are perturbed but not accounted
 }
 
 var curPerturb atomic.Pointer[perturbCfg]
@@ -80,7 +82,8 @@ func hook(p int, key uintptr, s *scheduler.Scheduler, j *scheduler.ScheduledJob,
 	if pc == nil {
 		return
 	}
-	if p == scheduler.VerifWorkerGot && pc.hold != nil {
+	own := pc.quiet || pc.key.Load() == key
+	if p == scheduler.VerifWorkerGot && pc.hold != nil && own {
 		pc.hold(j)
 	}
 	var h uint64
@@ -92,7 +95,18 @@ func hook(p int, key uintptr, s *scheduler.Scheduler, j *scheduler.ScheduledJob,
 		if pc.model != nil && isLoopPoint(p) {
 			pc.model.event(p, key, j, a, b, c)
 		}
-		switch p {
+		if p == scheduler.VerifWorkerStart {
+			// per scheduler: the first workers start inside Config.New, before
+			// the scenario knows its scheduler's key
+			pc.stMu.Lock()
+			pc.wstarts[key]++
+			pc.stMu.Unlock()
+		}
+		acc := p
+		if !own {
+			acc = -1
+		}
+		switch acc {
 		case scheduler.VerifDispatch:
 			pc.dispatches.Add(1)
 			for {
@@ -111,8 +125,6 @@ func hook(p int, key uintptr, s *scheduler.Scheduler, j *scheduler.ScheduledJob,
 			pc.sig.Store(mix(pc.sig.Load() ^ uint64(3+a)))
 		case scheduler.VerifTick:
 			pc.sig.Store(mix(pc.sig.Load() ^ 5))
-		case scheduler.VerifWorkerStart:
-			pc.workersStart.Add(1)
 		case scheduler.VerifLoopTop:
 			st := uint64(min(a, 3)) | uint64(min(b, 70))<<8 | uint64(min(c, 3))<<16
 			pc.stMu.Lock()
@@ -418,16 +430,18 @@ func (x *Exec) body(i int) func(context.Context) error {
 		x.delay(spec)
 		switch spec.Beh {
 		case BehErr:
+			e := x.errOf(i)
 			out = 2
-			return r.err
+			return e
 		case BehGoexit:
 			runtime.Goexit()
 		case BehCancelOK:
 			x.doCancel()
 		case BehCancelErr:
 			x.doCancel()
+			e := x.errOf(i)
 			out = 2
-			return r.err
+			return e
 		case BehCancelGoexit:
 			x.doCancel()
 			runtime.Goexit()
@@ -438,6 +452,31 @@ func (x *Exec) body(i int) func(context.Context) error {
 		out = 1
 		return nil
 	}
+}
+
+// errOf produces the error job i returns (JobSpec.ErrKind). It runs inside the
+// job's body; for kind 1 it records the value as the job's error, to be
+// compared by identity later.
+func (x *Exec) errOf(i int) error {
+	switch x.sc.Jobs[i].ErrKind {
+	case 1:
+		inner := scheduler.Config{Concurrency: 1 + i%3}.New()
+		inner.Enqueue(context.Background(), scheduler.Job{Run: func(context.Context) error {
+			runtime.Goexit()
+			return nil
+		}})
+		e := inner.Wait(context.Background())
+		if e == nil {
+			e = errors.New("verif: the inner scheduler's Wait returned nil although its only job killed its goroutine")
+		}
+		x.recs[i].err = e
+		return e
+	case 3:
+		return context.Canceled
+	case 4:
+		return context.DeadlineExceeded
+	}
+	return x.recs[i].err
 }
 
 // quietBody is the job body of race builds: no shared recorder, no atomics.
@@ -456,14 +495,14 @@ func (x *Exec) quietBody(i int, ctx context.Context) error {
 	x.plainOut[i] = sum
 	switch spec.Beh {
 	case BehErr:
-		return x.recs[i].err
+		return x.errOf(i)
 	case BehGoexit:
 		runtime.Goexit()
 	case BehCancelOK:
 		x.cancelFn()
 	case BehCancelErr:
 		x.cancelFn()
-		return x.recs[i].err
+		return x.errOf(i)
 	case BehCancelGoexit:
 		x.cancelFn()
 		runtime.Goexit()
@@ -525,7 +564,7 @@ func newExec(sc *Scenario, quiet bool) *Exec {
 	if quiet {
 		x.plainOut = make([]int64, len(sc.Jobs))
 	}
-	x.perturb = &perturbCfg{seed: sc.PerturbSeed, profile: sc.Profile, quiet: quiet, scale: 1, states: map[uint64]struct{}{}}
+	x.perturb = &perturbCfg{seed: sc.PerturbSeed, profile: sc.Profile, quiet: quiet, scale: 1, states: map[uint64]struct{}{}, wstarts: map[uintptr]int{}}
 	if !quiet {
 		x.perturb.model = newShadow(x.limit, sc.COE)
 	}
@@ -677,6 +716,7 @@ func (x *Exec) run() {
 	if x.perturb.model != nil {
 		x.perturb.model.bind(scheduler.VerifKey(s))
 	}
+	x.perturb.key.Store(scheduler.VerifKey(s))
 	if sc.CancelKind == CancelBeforeFirst {
 		x.doCancel()
 	}
